@@ -6,7 +6,7 @@ import CwPlus.Base.Paginate
 # Model of `contracts/cw20-ics20`
 
 Transcribed from `contract.rs` (`instantiate`, `execute`, `execute_receive`, `execute_transfer`,
-`execute_allow`, `migrate`, queries), `ibc.rs` (`reply`, `ibc_channel_open/connect`,
+`execute_allow`, `migrate`, all seven queries), `ibc.rs` (`reply`, `ibc_channel_open/connect/close`,
 `ibc_packet_receive`, `ibc_packet_ack`, `ibc_packet_timeout`, `check_gas_limit`, `send_amount`),
 `state.rs` (`increase/reduce/undo_reduce_channel_balance`), `migrations.rs` (`v2::update_balances`),
 `amount.rs`, cw-controllers `Admin`, cw-utils `one_coin` / `nonpayable` / `maybe_addr`.
@@ -88,6 +88,21 @@ def ACK_FAILURE_ID : Nat := 0xfa17
 
 abbrev ChanMap := AMap (String × Denom) ChanState
 
+/-- `ChannelInfo`: our channel id, the counterparty endpoint, the connection. -/
+structure ChanInfo where
+  id : String
+  cpPort : String
+  cpChan : String
+  connection : String
+  deriving Repr, DecidableEq, Inhabited
+
+/-- What `IbcChannel` says about the other side: `counterparty_endpoint` and `connection_id`. -/
+structure Peer where
+  port : String := "transfer"
+  chan : String := ""
+  connection : String := "connection-0"
+  deriving Repr, DecidableEq, Inhabited
+
 structure State where
   config : Config
   /-- `some gov`: the stored `CONFIG` JSON still has the pre-0.12 layout
@@ -101,6 +116,8 @@ structure State where
   allow : AMap Addr (Option Nat)
   /-- keys of `CHANNEL_INFO` -/
   channels : List String
+  /-- values of `CHANNEL_INFO` (same keys as `channels`: `Props/Ics20Channels.lean`, `reach_chanInfo`) -/
+  chanInfo : AMap String ChanInfo := []
   /-- `CHANNEL_STATE[(channel, denom)]` -/
   chan : ChanMap
   replyArgs : Option ReplyArgs := none
@@ -269,12 +286,22 @@ def enforceOrderAndVersion (version : String) (counterparty : Option String) (or
   check (match counterparty with | some v => v == ICS20_VERSION | none => true) "version.counterparty"
   check (!ordered) "ordered"
 
+/-- `ibc_channel_open` (`OpenInit`: no counterparty version, `OpenTry`: with one): checks only, no
+write, answers `None` (= keep the proposed version). -/
 def ibcChannelOpen (version : String) (counterparty : Option String) (ordered : Bool) : Res Unit :=
   enforceOrderAndVersion version counterparty ordered
 
-def ibcChannelConnect (s : State) (id version : String) (counterparty : Option String) (ordered : Bool) : Res State := do
+/-- `ibc_channel_connect` (`OpenAck`: with counterparty version, `OpenConfirm`: without): the same
+checks, then `CHANNEL_INFO.save(id, info)` (overwrites the info of a known id). -/
+def ibcChannelConnect (s : State) (id version : String) (counterparty : Option String) (ordered : Bool)
+    (peer : Peer := {}) : Res State := do
   enforceOrderAndVersion version counterparty ordered
-  pure { s with channels := if s.channels.contains id then s.channels else s.channels ++ [id] }
+  pure { s with channels := if s.channels.contains id then s.channels else s.channels ++ [id],
+                chanInfo := s.chanInfo.set id ⟨id, peer.port, peer.chan, peer.connection⟩ }
+
+/-- `ibc_channel_close` (`CloseInit` and `CloseConfirm` alike) is `unimplemented!()`: it panics, the
+transaction is aborted, nothing is written. -/
+def ibcChannelClose (_s : State) (_id : String) : Res State := .error "unimplemented"
 
 /-- `check_gas_limit`; `tv` = result of `addr_validate` on the cw20 address. -/
 def checkGasLimit (s : State) (d : Denom) (tv : Bool) : Res (Option Nat) :=
@@ -420,6 +447,23 @@ def queryChannel (s : State) (id : String) : Res (List (String × ChanState)) :=
   let entries : AMap String ChanState := (s.chan.filter (fun e => e.1.1 == id)).map (fun e => (e.1.2.render, e.2))
   pure (Paginate.sortedEntries Paginate.strLt entries)
 
+/-- The `info` part of `Channel{id}` (`CHANNEL_INFO.load`). -/
+def queryChannelInfo (s : State) (id : String) : Res ChanInfo :=
+  match s.chanInfo.get? id with
+  | some i => .ok i
+  | none => .error "nochannel"
+
+/-- `ListChannels{}`: every stored `ChannelInfo`, ascending by channel id (not paginated). -/
+def queryListChannels (s : State) : List ChanInfo :=
+  (Paginate.sortedEntries Paginate.strLt s.chanInfo).map (·.2)
+
+/-- `Port{}`: forwards `IbcQuery::PortId` to the chain; `envPort` is the chain's answer
+(`none`: the chain has no IBC port bound for this contract / the query fails). -/
+def queryPort (envPort : Option String) : Res String :=
+  match envPort with
+  | some p => .ok p
+  | none => .error "portquery"
+
 /-- `Config{}`: `(default_timeout, default_gas_limit, gov_contract)` -/
 def queryConfig (s : State) : Res (Nat × Option Nat × String) := do
   let cfg ← loadConfig s
@@ -510,7 +554,11 @@ def World.dispatch (w : World) (sub : Option SubMsg) (toValid fail : Bool) (data
       pure ({ w with st := st' }, d.or data)
 
 inductive Op where
-  | connect (id version : String) (counterparty : Option String) (ordered : Bool)
+  | connect (id version : String) (counterparty : Option String) (ordered : Bool) (peer : Peer)
+  /-- `ibc_channel_open` (handshake step before `connect`) -/
+  | chanOpen (version : String) (counterparty : Option String) (ordered : Bool)
+  /-- `ibc_channel_close` -/
+  | chanClose (id : String)
   /-- user sends `ExecuteMsg::Transfer` with funds -/
   | transferNative (snd : Addr) (funds : List (String × Nat)) (msg : TransferMsg)
   /-- user calls `Send{contract: ics20, amount, msg}` on a real cw20 token -/
@@ -534,8 +582,14 @@ structure Outcome where
 
 /-- One transaction against the world.  `.error` = the whole transaction is rolled back. -/
 def World.exec (w : World) (blk : Block) : Op → Res (World × Outcome)
-  | .connect id v cv ord => do
-    let s ← ibcChannelConnect w.st id v cv ord
+  | .connect id v cv ord peer => do
+    let s ← ibcChannelConnect w.st id v cv ord peer
+    pure ({ w with st := s }, {})
+  | .chanOpen v cv ord => do
+    ibcChannelOpen v cv ord
+    pure (w, {})
+  | .chanClose id => do
+    let s ← ibcChannelClose w.st id
     pure ({ w with st := s }, {})
   | .transferNative snd funds msg => do
     -- the contract never sends a message to itself
